@@ -32,7 +32,11 @@ def new_interp(index, conv=None, self_attrs=None):
             return conv
         if dotted == "self.get_Food_class":
             return Opaque("FoodClass")
-        if dotted == "Food":
+        callee_is_food = dotted == "Food"
+        if not callee_is_food and isinstance(node.func, ast.Name):
+            v = interp.call_env.get(node.func.id) if getattr(interp, "call_env", None) else None
+            callee_is_food = isinstance(v, Opaque) and v.name == "FoodClass"   # a local bound to self.get_Food_class()
+        if callee_is_food:
             if args:
                 raise Unsupported("positional Food(...) construction", node)
             return PDict(dict(kwargs))
